@@ -435,10 +435,12 @@ def eval_cases(cases, rdflib_every=0, vm_every=0, known=None, by_hash=False):
     b.model_s = time.time() - t0
     t0 = time.time()
     for i, c in enumerate(cases):
+        if len(b.spec_fail_in_dom) >= 40:
+            break       # the verdict is settled (failing inputs inside C06_dom): do not wait for more time-outs
         line = lines[i]
         so = sout[i]
         mobs = parse_doc_row(dout[i])
-        iobs = impl_doc(line, timeout=0.1 if mobs[0] == "H" else (2.0 if _UNPREDICTED_HANGS[0] < 3 else 0.3))
+        iobs = impl_doc(line, timeout=0.1 if mobs[0] == "H" else (2.0 if _UNPREDICTED_HANGS[0] < 3 else 0.2))
         if iobs[0] == "H" and mobs[0] != "H":
             _UNPREDICTED_HANGS[0] += 1
         b.n += 1
@@ -512,6 +514,8 @@ def _work_forms(arg):
     out = Batch()
     for k in range(0, len(cases), 4000):
         out.merge(eval_cases(cases[k:k + 4000], rdf, vm, known, by_hash=(kind != "main")))
+        if len(out.spec_fail_in_dom) >= 20:
+            break
     return out
 
 
